@@ -21,7 +21,44 @@ def dns_dist(rs):
         d["with_port"] += t[1] == "hook" and t[4] != "-"
     return d
 
+def sni_nontrivial(r):
+    t = r["input"].split()
+    # TLS info present and a host named
+    return t[6] == "1" and (t[2] != "-" or t[4] != "-")
+
+def sni_dist(rs):
+    d = {"h2": 0, "no_tls": 0, "no_sni": 0, "h2_no_authority_with_host": 0, "fwd": 0, "rej_invalid": 0, "rej_missing": 0,
+         "case_differs_only": 0, "with_port": 0}
+    for r in rs:
+        t = r["input"].split()
+        d["h2"] += t[1] == "1"
+        d["no_tls"] += t[6] == "0"
+        d["no_sni"] += t[6] == "1" and t[7] == "-"
+        d["h2_no_authority_with_host"] += t[1] == "1" and t[4] == "-" and t[2] != "-"
+        d["with_port"] += t[3] != "-" or t[5] != "-"
+        named = (t[4] if (t[1] == "1" and t[4] != "-") else t[2])
+        d["case_differs_only"] += named != "-" and t[7] != "-" and named != t[7] and named.lower() == t[7].lower()
+        o = r["obs"]
+        d["fwd"] += o.startswith("fwd")
+        d["rej_invalid"] += o == "rej invalid"
+        d["rej_missing"] += o == "rej missing"
+    return d
+
 PROPS = {
+    "C20": {
+        "props_module": "HdModel.Props.C20",
+        "theorems": ["Hd.Sni.C20_decision", "Hd.Sni.C20_forward_only_if", "Hd.Sni.C20_match_forwarded",
+                     "Hd.Sni.C20_rejects", "Hd.Sni.C20_port_irrelevant"],
+        "streams": [
+            {"name": "sni", "quick": 6000, "thorough": 300000, "head": 8, "unit": 1,
+             "nontrivial": sni_nontrivial, "distribution": sni_dist},
+        ],
+        "rule": "requests from a grammar (HTTP/1.1|2, Host header / authority present or absent, 12 base names incl. IPv4/IPv6 "
+                "literals and punycode, 4 letter-case variants, ports, TLS info present/absent, server name present/absent/"
+                "different/differently cased) through the public ValidateSNI layer; non-trivial = TLS info present and a host named",
+        "assumes": ["http::uri::Authority parsing splits host and port (inputs are rendered host[:port]; the model receives them split)",
+                    "ASCII case folding: Rust eq_ignore_ascii_case = Lean String.toLower equality on ASCII host names"],
+    },
     "C16": {
         "props_module": "HdModel.Props.C16",
         "theorems": ["Hd.Dns.C16_eq_spec", "Hd.Dns.C16_perm", "Hd.Dns.C16_both", "Hd.Dns.C16_no_preferred",
